@@ -117,7 +117,9 @@ def run_history(nworkers, max_fails, history, via_run_worker=False):
     if max_fails >= 1:
         if status == -1 and len(fails) != max_fails: pr.append(f"C18: failure status after {len(fails)} handled unexpected exits (max_fails={max_fails})")
         if status != -1 and len(fails) >= max_fails and not raised: pr.append(f"C18: {len(fails)} unexpected exits handled but no failure status (max_fails={max_fails}, status={status})")
-    elif status == -1: pr.append(f"C18: failure status with max_fails={max_fails}")
+    elif status == -1:
+        pr.append(f"C18: failure status with max_fails={max_fails}")
+        pr.append(f"C17: the manager gave up (returned the failure status) with max_fails={max_fails} - no failure budget exists, nothing asked it to shut down, yet the dead worker is never replaced")
     # ---- C18: reload-all restarts every worker exactly once in the tick in which it is handled, without consuming the budget
     for g in world.gets:
         if g[0] == 'ReloadAllAction':
